@@ -233,6 +233,20 @@ def check(ctx: Ctx) -> None:
     ctx.soft(lambda: check_path(ctx, "C11.state", ["ahbicht.utility_functions.tree_copy", *[f"{m}.{f}" for m, f, _ in PARSERS],
                                   "ahbicht.expressions.expression_resolver.parse_expression_including_unresolved_subexpressions"],
                "a parse result must depend on the string alone"))
+    # the cached functions are only reachable through their copying wrapper: nothing unwraps them
+    for fn_ in model.functions.values():
+        if fn_.module.name.endswith("_vstat_stub"):
+            continue
+    for mod_ in model.modules.values():
+        if mod_.name.endswith("_vstat_stub"):
+            continue
+        for n_ in ast.walk(mod_.tree):
+            bypass = (isinstance(n_, ast.Attribute) and n_.attr == "__wrapped__") or \
+                (isinstance(n_, ast.Call) and (dotted(n_.func) or "").split(".")[-1] == "unwrap")
+            if bypass:
+                ctx.ob("C11.only", f"{mod_.name}::unwrap::{norm(n_, 50)}", False,
+                       f"{mod_.name} reaches behind a decorator ({norm(n_, 80)}): a caller that obtains the lru_cached parse function itself receives the cache entry, not a copy",
+                       file=f"src/{mod_.relpath}" if not str(mod_.relpath).startswith("src/") else str(mod_.relpath), line=n_.lineno)
     # memoisation nowhere else
     parse_qualnames = {f"{m}.{f}" for m, f, _ in PARSERS}
     for fn in model.functions.values():
